@@ -80,8 +80,12 @@ def mkdirAll (a : Args) (t : List Node) (p : Path) : Except String (List Node) :
       | some n => if n.st.isDir then go rest next t else .error "mkdir: not a directory"
       | none =>
         let perm := match a.mode with | some m => goPermOfUnix m &&& 511 | none => 493
-        let (u, g) := a.chown.getD (0, 0)
-        let n : Node := { path := next, st := { path := next, mode := modeDir ||| perm, uid := u, gid := g, size := 0, mtime := 0,
+        -- a directory made inside a set-group-ID directory gets that directory's group and the bit itself (kernel rule);
+        -- MkdirAll changes the owner only when a chown option is given
+        let par := findN t cur
+        let sg := (par.map fun pn => pn.st.mode &&& modeSetgid != 0).getD false
+        let (u, g) := a.chown.getD (0, if sg then (par.map (·.st.gid)).getD 0 else 0)
+        let n : Node := { path := next, st := { path := next, mode := modeDir ||| perm ||| (if sg then modeSetgid else 0), uid := u, gid := g, size := 0, mtime := 0,
                                                    linkname := [], devmajor := 0, devminor := 0 }, mtime := a.utime, permFree := true }
         go rest next (t ++ [n])
   go cs [] t
@@ -119,6 +123,20 @@ def createParents (a : Args) (srcSub : List Snap) (srcRel dstFinal : Path) (rel 
         let (st, _) := applyInfo a sd.st []
         pure { s with tree := s.tree ++ [{ path := target, st := { st with path := target }, mtime := none }], lazyDone := d :: s.lazyDone }) s
 
+/-- `target` (and what is below it) is replaced: the nodes go; link groups led from there are led by their first remaining member;
+repaired (F29): the link sources recorded there are forgotten (unrepaired: they stay, and a later member of such a group is linked
+to whatever has taken the path) -/
+def dropTarget (s : St) (target : Path) : St :=
+  let gone := fun (p : Path) => p = target || underB target p
+  let t := removeSub s.tree target
+  let t := t.map fun n =>
+    if n.grp ≠ [] && gone n.grp then
+      match t.find? (fun m => m.grp = n.grp) with
+      | some m => if m.path = n.path then { n with grp := [] } else { n with grp := m.path }
+      | none => n
+    else n
+  { s with tree := t, inodes := if Fix.f29 then s.inodes.filter (fun ip => !gone ip.2) else s.inodes }
+
 /-- one source entry, in walk order; `rel` = path relative to the copied source ("" = the source itself) -/
 def copyEntry (a : Args) (srcSub : List Snap) (srcRel dstFinal : Path) (s : St) (e : Snap) : Except String St := do
   let rel := if e.st.path = srcRel then [] else e.st.path.drop (if srcRel = [] then 0 else srcRel.length + 1)
@@ -126,7 +144,7 @@ def copyEntry (a : Args) (srcSub : List Snap) (srcRel dstFinal : Path) (s : St) 
   if !included a rel then return s
   -- alwaysReplace
   let s := match findN s.tree target with
-    | some n => if a.replace && !(e.st.isDir && n.st.isDir) then { s with tree := removeSub s.tree target } else s
+    | some n => if a.replace && !(e.st.isDir && n.st.isDir) then dropTarget s target else s
     | none => s
   let s ← createParents a srcSub srcRel dstFinal rel s
   let top := rel = []
@@ -146,13 +164,15 @@ def copyEntry (a : Args) (srcSub : List Snap) (srcRel dstFinal : Path) (s : St) 
   else
     -- ensureEmptyFileTarget
     let s ← match findN s.tree target with
-      | some n => if n.st.isDir then throw "cannot replace directory with file" else pure { s with tree := removeSub s.tree target }
+      | some n => if n.st.isDir then throw "cannot replace directory with file" else pure (dropTarget s target)
       | none => pure s
     let (st, mt) := applyInfo a e.st []
     let isReg := e.st.isRegular
     let leader := if isReg && e.nlink > 1 then (s.inodes.find? (·.1 = e.ino)).map (·.2) else none
     -- the link source is the path just removed (several sources landing on one non-directory name): os.Link fails
     if leader = some target then throw "failed to create hard link (link source is the target itself)"
+    -- ... or a directory by now (a later source of the same call replaced the first member under always-replace): os.Link fails too
+    if (leader.bind (findN s.tree)).any (·.st.isDir) then throw "failed to create hard link (link source is a directory by now)"
     let inodes := if isReg && e.nlink > 1 && leader.isNone then (e.ino, target) :: s.inodes else s.inodes
     let node : Node := { path := target, st := { st with path := target }, sha := e.sha, mtime := mt, grp := leader.getD [] }
     -- metadata of a hard link is applied to the shared inode: the group follows the last member copied
@@ -210,9 +230,11 @@ def copyOne (a : Args) (srcTree : List Snap) (srcRel srcArg dstRel : Path) (s0 :
                    devmajor := 0, devminor := 0 }, ino := 0, nlink := 2 }] else []
       -- a new directory entry in the parent of the landing path changes that parent's mtime; unless the parent was created by
       -- MkdirAll (its time is fixed up at the very end of the call) it is from now on whatever the kernel chose
+      -- (a non-directory source replaces what is at the landing path: unlink + create, the same effect on the parent - visible
+      -- when an earlier source of the same call created that parent and already set its time)
       let isNew := (findN t2 dstFinal).isNone
       let par := parentOf dstFinal
-      let t3 := if isNew && par ≠ [] then t2.map (fun n => if n.path = par then { n with mtime := if n.permFree then a.utime else none } else n) else t2
+      let t3 := if (isNew || !srcIsDir) && par ≠ [] then t2.map (fun n => if n.path = par then { n with mtime := if n.permFree then a.utime else none } else n) else t2
       (rootEnt ++ sub).foldlM (copyEntry a (rootEnt ++ sub) srcRel dstFinal) { s0 with tree := t3, lazyDone := [] }
 
 /-- the whole call: ensure the destination's parents, then copy every source (one, or the wildcard matches in order) -/
